@@ -96,6 +96,23 @@ func genC04(r *Rand, tier string) []Case {
 		}
 		var ontags []string
 		on := genOn(r, lcols, rcols, "ls", "rs", &ontags)
+		if r.Chance(15) {
+			// two adjacent string key columns whose texts concatenate ambiguously: ("ab","c") vs ("a","bc") vs ("abc","")
+			amb := [][2]string{{"ab", "c"}, {"a", "bc"}, {"abc", ""}, {"", "abc"}, {"ab", "c"}}
+			for _, side := range []string{"l", "r"} {
+				for _, row := range doc[side].([]any) {
+					p := Pick(r, amb)
+					m := row.(map[string]any)
+					if side == "l" {
+						m["ls"], m["ls2"] = p[0], p[1]
+					} else {
+						m["rs"], m["rs2"] = p[0], p[1]
+					}
+				}
+			}
+			on = And(Cmp("=", Col("x", "ls"), Col("y", "rs")), Cmp("=", Col("y", "rs2"), Col("x", "ls2")))
+			ontags = []string{"on:two-string-keys", "on:equi", "on:="}
+		}
 		for _, jt := range []string{"inner", "left", "right"} {
 			for _, st := range strats {
 				if (st == "straight" || st == "parallelstraight") && jt != "inner" {
@@ -115,4 +132,85 @@ func genC04(r *Rand, tier string) []Case {
 func init() {
 	register(engineProp{id: "C04", checkFn: "EngineRun.check_join", gen: genC04,
 		rule: "pairs of tables (0-5 x 0-5 rows, duplicate keys, two numeric key columns + one string key column per side with texts that collide under naive concatenation, occasional NULL / missing keys, empty sides) x ON built from 1-3 column pairs with = != < <= > >= joined by AND/OR in random order and orientation, column names chosen so the two sides sort differently; every (table pair, ON) is rendered for all 3 join types x all strategies (auto, HASH_JOIN, STRAIGHT_JOIN, PARALLEL, PARALLEL HASH_JOIN, PARALLEL STRAIGHT_JOIN: 14 renderings); observable: the multiset of merged rows, compared with the code-shaped model AND with the textbook specification; non-trivial = non-error, non-empty result"})
+}
+
+// ---------- C04 stress: PARALLEL drivers against the sequential ones on large key sets ----------
+// Justified by C04_parallel_schedules (every schedule yields a permutation of the sequential result):
+// on the real code the multiset of a PARALLEL join must equal that of the sequential join, whatever the
+// interleaving. Large key counts make slice reallocation / lost appends observable.
+
+func init() { auxRegistry["c04stress"] = runC04Stress }
+
+func rowsFingerprint(rows []any) map[string]int {
+	m := map[string]int{}
+	for _, r := range rows {
+		m[fmt.Sprintf("%#v", r)]++
+	}
+	return m
+}
+
+func sameMultiset(a, b map[string]int) bool {
+	if len(a) != len(b) {
+		return false
+	}
+	for k, v := range a {
+		if b[k] != v {
+			return false
+		}
+	}
+	return true
+}
+
+func runC04Stress(tier string, seed uint64, out string) {
+	r := NewRand(seed)
+	rounds := 25
+	if tier == "thorough" {
+		rounds = 300
+	}
+	type failure struct {
+		SQL  string `json:"sql"`
+		Keys int    `json:"keys"`
+		Want int    `json:"want_rows"`
+		Got  int    `json:"got_rows"`
+		Err  string `json:"err,omitempty"`
+	}
+	var failures []failure
+	runs := 0
+	for round := 0; round < rounds && len(failures) < 5; round++ {
+		keys := []int{2000, 300, 1200}[round%3]
+		l := make([]any, 0, keys)
+		rt := make([]any, 0, keys)
+		for i := 0; i < keys; i++ {
+			l = append(l, map[string]any{"k": float64(i), "v": float64(r.Intn(5))})
+			if r.Chance(70) {
+				rt = append(rt, map[string]any{"m": float64(i), "w": float64(r.Intn(5))})
+			}
+			if r.Chance(10) {
+				rt = append(rt, map[string]any{"m": float64(i), "w": float64(9)})
+			}
+		}
+		doc := map[string]any{"l": l, "r": rt}
+		type variant struct{ seq, par, on string }
+		vs := []variant{
+			{"JOIN", "PARALLEL JOIN", "x.k = y.m"},
+			{"JOIN", "PARALLEL HASH_JOIN", "x.k = y.m"},
+			{"LEFT JOIN", "PARALLEL LEFT JOIN", "x.k = y.m"},
+			{"RIGHT JOIN", "PARALLEL RIGHT HASH_JOIN", "x.k = y.m"},
+		}
+		if keys <= 300 {
+			vs = append(vs, variant{"JOIN", "PARALLEL JOIN", "x.k = y.m AND x.v <= y.w"}, variant{"LEFT JOIN", "PARALLEL LEFT JOIN", "x.v < y.w AND x.k = y.m"})
+		}
+		for _, v := range vs {
+			seqSQL := "SELECT * FROM l x " + v.seq + " r y ON " + v.on
+			parSQL := "SELECT * FROM l x " + v.par + " r y ON " + v.on
+			want := runEngine(deepCopy(anyMap(doc)).(map[string]any), seqSQL)
+			got := runEngine(deepCopy(anyMap(doc)).(map[string]any), parSQL)
+			runs++
+			if want.Class != got.Class || !sameMultiset(rowsFingerprint(want.Rows), rowsFingerprint(got.Rows)) {
+				failures = append(failures, failure{SQL: parSQL, Keys: keys, Want: len(want.Rows), Got: len(got.Rows), Err: got.Err})
+			}
+		}
+	}
+	writeJSON(out+"/c04stress.json", map[string]any{"rounds": rounds, "runs": runs, "failures": failures, "cases": runs,
+		"samples": []any{map[string]any{"par": "SELECT * FROM l x PARALLEL HASH_JOIN r y ON x.k = y.m", "keys": 2000}}})
 }
